@@ -244,7 +244,7 @@ func (p *Pool) runCase(w *worker, req *Req) (*worker, *Result) {
 		cur, curArg := "", ""
 		var t0 time.Time
 		finished := false
-		timer := time.NewTimer(p.budget(req, inputLen) + 20*time.Second) // building the case
+		timer := time.NewTimer(p.budget(req, inputLen) + 60*time.Second) // building the case
 		for !finished {
 			select {
 			case raw, ok := <-w.lines:
@@ -305,7 +305,7 @@ func (p *Pool) runCase(w *worker, req *Req) (*worker, *Result) {
 			case <-timer.C:
 				dump := w.dumpAndKill()
 				if cur == "" {
-					res.Infra = core.Infra("worker silent outside a call (case %s)\n%s", req.ID, tailStr(dump, 1500))
+					res.Infra = core.Infra("worker silent outside a call (case %s %s)\n%s", req.ID, req.describe(), tailStr(dump, 1500))
 					return nil, res
 				}
 				res.Recs = append(res.Recs, Rec{Case: req.ID, Call: cur, Arg: curArg, Outcome: "hang", N: 1, Len: inputLen, Gets: -1, Prod: -1,
@@ -378,4 +378,18 @@ func (p *Pool) Run(reqs []*Req, par int, sink func(*Result), skip func(*Req) boo
 	close(jobs)
 	wg.Wait()
 	return first
+}
+
+func (r *Req) describe() string {
+	switch {
+	case r.Wiring != nil:
+		return fmt.Sprintf("wiring %s/v%d", r.Wiring.key(), r.Variant)
+	case r.Family != nil:
+		return "family " + r.Family.key()
+	case r.Pipe != nil:
+		return "pipe " + r.Pipe.key()
+	case r.Calib != nil:
+		return "calib " + r.Calib.Kind
+	}
+	return fmt.Sprintf("%d bytes", len(r.Data))
 }
